@@ -12,6 +12,7 @@
 #include <map>
 #include <memory>
 #include <set>
+#include <type_traits>
 #include <vector>
 #include <compat/mem/lin_malloc.h>
 #include <igris/container/pool.h>
@@ -682,10 +683,22 @@ struct PoolModel
     }
 };
 
+// bounded walk of a pool's free list: a list that does not come back to its head within `bound` links is reported
+// by the monitor instead of hanging inside pool_avail()/slist_size()
+static bool freelist_ends(const pool_head *h, size_t bound)
+{
+    const slist_head *head = &h->free_blocks;
+    size_t n = 0;
+    for (const slist_head *it = head->next; it != head; it = it->next)
+        if (!it || ++n > bound)
+            return false;
+    return true;
+}
 // adapters
 struct CPool
 {
     pool_head head;
+    const pool_head *raw() { return &head; }
     void init(void *zone, size_t size, size_t elemsz)
     {
         pool_init(&head);
@@ -697,9 +710,11 @@ struct CPool
     void extra(PoolModel &) {}
     static const char *name() { return "pool_head"; }
 };
+static_assert(std::is_standard_layout<igris::pool>::value, "igris::pool: first member (the pool_head) is at offset 0");
 struct CxxPool
 {
     igris::pool pl;
+    const pool_head *raw() { return reinterpret_cast<const pool_head *>(&pl); } // first member of a standard-layout class
     void init(void *zone, size_t size, size_t elemsz) { pl.init(zone, size, elemsz); }
     void *get() { return pl.get(); }
     void put(void *p) { pl.put(p); }
@@ -743,6 +758,8 @@ template <class P> static void pool_case(size_t elemsz, size_t zalign, size_t ca
     pool.init(zone.p, elemsz * cap, elemsz);
     PoolModel m{(char *)zone.p, elemsz, cap, P::name(), zalign};
     auto counts = [&](const char *when) {
+        if (!freelist_ends(pool.raw(), cap + 64))
+            m.bad("free-list-does-not-end", "%s: more than %zu links without returning to the list head", when, cap + 64);
         size_t a = pool.avail();
         if (a != cap - m.live.size())
             m.bad("free-count", "%s: avail()=%zu, capacity-live=%zu", when, a, cap - m.live.size());
@@ -844,9 +861,11 @@ template <class P> struct PoolHist
 {
     P pool;
     std::unique_ptr<AlignedZone> zone;
+    std::vector<std::unique_ptr<AlignedZone>> old_zones; // keep_old: previous zones stay allocated, so a stale block is
+    bool keep_old;                                       // reported by the model (outside-zone / more-than-capacity), not by ASan
     PoolModel m;
     vf::Rng rg;
-    explicit PoolHist(const RGeom &g, uint64_t salt) : m{nullptr, g.cell, g.cap, P::name(), g.align}, rg(vf::seed(), 0x9004, salt)
+    explicit PoolHist(const RGeom &g, uint64_t salt, bool keep_old_ = false) : keep_old(keep_old_), m{nullptr, g.cell, g.cap, P::name(), g.align}, rg(vf::seed(), 0x9004, salt)
     {
         zone.reset(new AlignedZone(g.align, g.cell * g.cap));
         m.zone = zone->p;
@@ -856,6 +875,8 @@ template <class P> struct PoolHist
     }
     void counts(const char *when)
     {
+        if (!freelist_ends(pool.raw(), m.cap + 256))
+            m.bad("free-list-does-not-end", "%s: more than %zu links without returning to the list head", when, m.cap + 256);
         size_t a = pool.avail();
         if (a != m.cap - m.live.size())
             m.bad("free-count", "%s: avail()=%zu, capacity-live=%zu", when, a, m.cap - m.live.size());
@@ -887,6 +908,8 @@ template <class P> struct PoolHist
             printf("  re-init %zux%zu %s\n", g.cell, g.cap, other_zone ? "new zone" : "same zone");
         if (other_zone)
         {
+            if (keep_old)
+                old_zones.push_back(std::move(zone));
             zone.reset();
             zone.reset(new AlignedZone(g.align, g.cell * g.cap));
         }
@@ -947,7 +970,7 @@ template <class P> static uint64_t rhist_case(int start, int a, int b, uint64_t 
         total *= RH_N;
     for (uint64_t h = 0; h < total; h++)
     {
-        PoolHist<P> t(RGEOM[start], idx);
+        PoolHist<P> t(RGEOM[start], idx, (a + b) & 1);
         t.op(a);
         t.op(b);
         uint64_t x = h;
@@ -976,7 +999,7 @@ template <class P> static void rrand_case(uint64_t idx)
     snprintf(cls, sizeof cls, "%s:reinit-random", P::name());
     vf::cls(cls);
     vf::Rng rg(vf::seed(), 0x9005, idx);
-    PoolHist<P> t(RGEOM[idx % 3], idx);
+    PoolHist<P> t(RGEOM[idx % 3], idx, (idx >> 1) & 1);
     uint64_t h = idx % 3;
     for (int step = 0; step < 300; step++)
     {
